@@ -213,21 +213,21 @@ Definition af_container (objs : list sobj) (n : N) : N :=
 
 Fixpoint af_refs (o : pobj) : list N :=
   match o with
-  | PRef n _ => [n]
-  | PArr l => (fix go (l : list pobj) : list N := match l with [] => [] | x :: t => af_refs x ++ go t end) l
-  | PDict d => (fix go (d : list (list N * pobj)) : list N := match d with [] => [] | (_, x) :: t => af_refs x ++ go t end) d
+  | SpRef n _ => [n]
+  | SpArr l => (fix go (l : list pobj) : list N := match l with [] => [] | x :: t => af_refs x ++ go t end) l
+  | SpDict d => (fix go (d : list (list N * pobj)) : list N := match d with [] => [] | (_, x) :: t => af_refs x ++ go t end) d
   | _ => []
   end.
 
 Definition af_refs_skip (skip : list (list N)) (o : pobj) : list N :=
   match o with
-  | PDict d => flat_map (fun kv => if existsb (beq (fst kv)) skip then [] else af_refs (snd kv)) d
+  | SpDict d => flat_map (fun kv => if existsb (beq (fst kv)) skip then [] else af_refs (snd kv)) d
   | _ => af_refs o
   end.
 
 Definition af_has_type (t : list N) (v : pobj) : bool :=
   match v with
-  | PDict d => match dict_get d n_Type with Some (PName x) => beq x t | _ => false end
+  | SpDict d => match dict_get d n_Type with Some (SpName x) => beq x t | _ => false end
   | _ => false
   end.
 
@@ -272,13 +272,13 @@ Fixpoint af_pages (fuel : nat) (objs : list sobj) (node : N) : option (list N) :
           if af_has_type afn_Page (so_val o) then Some [node] else
           if af_has_type afn_Pages (so_val o) then
             match so_val o with
-            | PDict d =>
+            | SpDict d =>
                 match dict_get d afn_Kids with
-                | Some (PArr kids) =>
+                | Some (SpArr kids) =>
                     (fix go (ks : list pobj) : option (list N) :=
                        match ks with
                        | [] => Some []
-                       | PRef k _ :: t => match af_pages f objs k, go t with
+                       | SpRef k _ :: t => match af_pages f objs k, go t with
                                           | Some a, Some b => Some (a ++ b)
                                           | _, _ => None
                                           end
@@ -505,11 +505,11 @@ Definition lin_check (file : list N) : af_report :=
       | None => af_empty_report (af_err 2 0 0)
       | Some ld =>
           match so_val ld, af_off ld with
-          | PDict d, Some ldoff =>
+          | SpDict d, Some ldoff =>
               match dict_get d afn_Linearized with
               | None => af_empty_report (af_err 2 (so_num ld) 0)
               | Some lv =>
-                  let e2 := af_when (match lv with PInt 1 => false | PReal _ => false | _ => true end) (af_err 2 (so_num ld) 1) in
+                  let e2 := af_when (match lv with SpInt 1 => false | SpReal _ => false | _ => true end) (af_err 2 (so_num ld) 1) in
                   (* end of the dictionary itself: re-read "n g obj <<...>>" *)
                   let dict_end :=
                     match next_tok (at_off file ldoff) with
@@ -524,7 +524,7 @@ Definition lin_check (file : list N) : af_report :=
                     end in
                   let e3 := af_when (1024 <? dict_end) (af_err 3 dict_end 1024) in
                   let Hs := match dict_get d afn_H with
-                            | Some (PArr [PInt a; PInt b]) => if (0 <=? a)%Z && (0 <=? b)%Z then Some (Z.to_N a, Z.to_N b) else None
+                            | Some (SpArr [SpInt a; SpInt b]) => if (0 <=? a)%Z && (0 <=? b)%Z then Some (Z.to_N a, Z.to_N b) else None
                             | _ => None
                             end in
                   match af_getN d afn_L, Hs, af_getN d afn_O, af_getN d afn_E, af_getN d afn_N, af_getN d afn_T with
@@ -542,11 +542,11 @@ Definition lin_check (file : list N) : af_report :=
                                  end in
                       let encrypted := match dict_get (sf_trailer sf) afn_Encrypt with Some _ => true | None => false end in
                       (* catalog, page tree *)
-                      let root := match dict_get (sf_trailer sf) n_Root with Some (PRef r _) => Some r | _ => None end in
+                      let root := match dict_get (sf_trailer sf) n_Root with Some (SpRef r _) => Some r | _ => None end in
                       let cat := match root with Some r => af_find objs r | None => None end in
-                      let catd := match cat with Some c => match so_val c with PDict cd => cd | _ => [] end | None => [] end in
+                      let catd := match cat with Some c => match so_val c with SpDict cd => cd | _ => [] end | None => [] end in
                       let pages := match dict_get catd afn_Pages with
-                                   | Some (PRef pr _) => af_pages fuel objs pr
+                                   | Some (SpRef pr _) => af_pages fuel objs pr
                                    | _ => None
                                    end in
                       let e78 := match pages with
@@ -608,10 +608,10 @@ Definition lin_check (file : list N) : af_report :=
                                    | None => []
                                    end in
                       let outl := match dict_get catd afn_Outlines with
-                                  | Some (PRef orf _) => cont (af_closure fuel objs [orf] [])
+                                  | Some (SpRef orf _) => cont (af_closure fuel objs [orf] [])
                                   | _ => []
                                   end in
-                      let use_outl := match dict_get catd afn_PageMode with Some (PName m) => beq m afn_UseOutlines | _ => false end in
+                      let use_outl := match dict_get catd afn_PageMode with Some (SpName m) => beq m afn_UseOutlines | _ => false end in
                       let doclevel := af_dedup (
                                         flat_map (fun kv => if beq (fst kv) afn_Pages then [] else cont (af_closure fuel objs (af_refs (snd kv)) [])) catd ++
                                         flat_map (fun kv => if beq (fst kv) n_Root then [] else cont (af_closure fuel objs (af_refs (snd kv)) [])) (sf_trailer sf)) in
@@ -630,7 +630,7 @@ Definition lin_check (file : list N) : af_report :=
                       match hobj, pages with
                       | Some ho, Some ((p0 :: _) as ps) =>
                           match so_val ho, so_stream ho with
-                          | PDict hd_, Some (doff, dlen) =>
+                          | SpDict hd_, Some (doff, dlen) =>
                               match decode_struct_stream hd_ (firstn (N.to_nat dlen) (at_off file doff)), af_getN hd_ afn_S with
                               | Some data, Some hS =>
                                   let Oo := af_getN hd_ afn_O in
